@@ -1348,6 +1348,12 @@ def serialize_set(obj):
 			'type': 'set',
 			'elements': list(obj)
 		}
+	# NumPy scalars and arrays (e.g., demands drawn from NumPy's generators that end up in state variables)
+	# are not JSON serializable; convert them to native Python objects instead of silently writing null.
+	if isinstance(obj, np.generic):
+		return obj.item()
+	if isinstance(obj, np.ndarray):
+		return obj.tolist()
 
 
 def deserialize_set(obj):
